@@ -5,6 +5,8 @@
      PulseOps.v      invalidate / attach / detach / clear / destroy keep [Good G]
      PulseSweep.v    PulseAux (any Pulse() oracle) and GetPulseTimeAux (operation-free GetPulseTime() oracle)
      PulseReach.v    reach_inv
-     PulseMin.v      recalc_min *)
+     PulseMin.v      recalc_min
+     PulseExact.v    pulse_never_early_once (any Pulse() oracle), pulse_exact (operation-free Pulse() oracle)
+     PulseRefuted.v  reentrant_recalc_refuted (finding F16) *)
 From Muscle Require Export Pulse.PulseModel Pulse.PulseInv Pulse.PulseForest Pulse.PulseResched Pulse.PulseOps
-     Pulse.PulseSweep Pulse.PulseReach Pulse.PulseMin.
+     Pulse.PulseSweep Pulse.PulseReach Pulse.PulseMin Pulse.PulseExact Pulse.PulseRefuted.
